@@ -365,13 +365,13 @@ def check_release_ownership(ck, P, rid):
     cfgname = P.config
     ANTI = P.enum_const("MSG_FLAG_ANTI")
     for fname, need_anti in (("fossil_lp_collect", False), ("process_lp_fini", True)):
-        f = P.fn(fname)
-        frees = list(f.calls("msg_allocator_free"))
+        f0 = P.fn(fname)
+        frees = [(g, c) for g in Q.with_helpers(P, f0) for c in g.calls("msg_allocator_free")]
         inst = "release@%s" % fname
         if not frees:
-            ck.violated(rid, inst, f.where, "%s no longer releases the history entries it drops" % fname, cfgname)
+            ck.violated(rid, inst, f0.where, "%s no longer releases the history entries it drops" % fname, cfgname)
             continue
-        for c in frees:
+        for f, c in frees:
             paths, complete = Q.path_conditions(f, c)
             ok = True
             why = ""
@@ -553,6 +553,11 @@ def check_early_list(ck, P, rid):
     # (b) an early anti-message is linked completely before it becomes the list head
     h = P.fn("handle_remote_anti_msg")
     a = h.params[1]["name"]
+    # the two stores may live in a helper extracted from the handler: look for the function that publishes, use its own parameter name
+    for cand_fn in Q.with_helpers(P, h):
+        for pn in [p_["name"] for p_ in cand_fn.params]:
+            if any(n.k == "BinaryOperator" and n.op == "=" and X.show(n.children[0]).endswith("early_antis") and X.show(n.children[1]) == pn for n in cand_fn.walk()):
+                h, a = cand_fn, pn
     link = [n for n in h.walk() if n.k == "BinaryOperator" and n.op == "=" and X.show(n.children[0]) == "%s->next" % a and "early_antis" in X.show(n.children[1])]
     pub = [n for n in h.walk() if n.k == "BinaryOperator" and n.op == "=" and X.show(n.children[0]).endswith("early_antis") and X.show(n.children[1]) == a]
     inst = "link-then-publish@handle_remote_anti_msg"
